@@ -134,6 +134,41 @@ func c15(ctx *Ctx) (*Outcome, error) {
 		off.Pair = &sem.Case{Root: root, Sig: root.Sig(), Args: []string{"--min-sized-ints"}}
 		cases = append(cases, off)
 	}
+	// integers whose every stated bound coincides with a limit of the chosen type (inclusive form, draft-04 boolean
+	// exclusive form true/false, numeric exclusive form), all optional and nothing else in the file that can fail:
+	// with the flag no check is left - the file must still build and accept the same documents
+	for i := 0; i < 24; i++ {
+		mk := []func() *sg.Schema{
+			func() *sg.Schema { return &sg.Schema{Types: []string{"integer"}, Min: sg.Fp(0), ExMin: false, Max: sg.Fp(255), ExMax: false} },
+			func() *sg.Schema { return &sg.Schema{Types: []string{"integer"}, Min: sg.Fp(-1), ExMin: true, Max: sg.Fp(65536), ExMax: true} },
+			func() *sg.Schema { return &sg.Schema{Types: []string{"integer"}, Min: sg.Fp(-128), Max: sg.Fp(127)} },
+			func() *sg.Schema { return &sg.Schema{Types: []string{"integer"}, Min: sg.Fp(0), Max: sg.Fp(65535), ExMax: false} },
+			func() *sg.Schema { return &sg.Schema{Types: []string{"integer"}, ExMin: float64(-32769), ExMax: float64(32768)} },
+			func() *sg.Schema { return &sg.Schema{Types: []string{"integer"}, Min: sg.Fp(-2147483649), ExMin: true, Max: sg.Fp(2147483647)} },
+		}
+		root := &sg.Schema{Types: []string{"object"}}
+		for k := range mk {
+			if (i>>uint(k%3))&1 == 1 && i%4 != 3 {
+				continue
+			}
+			s := mk[k]()
+			switch (i / 8) % 3 {
+			case 1:
+				// through a named definition
+				root.Defs = append(root.Defs, sg.Prop{Name: fmt.Sprintf("Int%d", k), S: s})
+				s = &sg.Schema{Ref: fmt.Sprintf("#/$defs/Int%d", k), Target: s}
+			case 2:
+				s.Types = []string{"integer", "null"}
+			}
+			root.Props = append(root.Props, sg.Prop{Name: fmt.Sprintf("f%d", k), S: s})
+		}
+		if len(root.Props) == 0 {
+			root.Props = append(root.Props, sg.Prop{Name: "f0", S: mk[0]()})
+		}
+		off := &sem.Case{Root: root, Sig: fmt.Sprintf("minsized-implied/%d", i)}
+		off.Pair = &sem.Case{Root: root, Sig: off.Sig, Args: []string{"--min-sized-ints"}}
+		cases = append(cases, off)
+	}
 	// pinned witness of the recorded finding minsized-regenerated-node
 	{
 		def := &sg.Schema{Types: []string{"object"}, Props: []sg.Prop{{Name: "b", S: &sg.Schema{Types: []string{"integer"}, Min: sg.Fp(-128), Max: sg.Fp(0)}}}, Required: []string{"b"}}
@@ -144,13 +179,50 @@ func c15(ctx *Ctx) (*Outcome, error) {
 		w.Pair = &sem.Case{Root: root, Sig: w.Sig, Args: []string{"--min-sized-ints"}, Witness: w.Witness}
 		cases = append(cases, w)
 	}
+	// pinned witness of the recorded finding minsized-collision-equal-after-clearing
+	{
+		bounded := &sg.Schema{Types: []string{"integer"}, Min: sg.Fp(0), Max: sg.Fp(255)}
+		free := &sg.Schema{Types: []string{"integer"}}
+		root := &sg.Schema{Types: []string{"object"}, Defs: []sg.Prop{{Name: "Kind", S: bounded}, {Name: "kind", S: free}},
+			Props: []sg.Prop{{Name: "a", S: &sg.Schema{Ref: "#/$defs/Kind", Target: bounded}}, {Name: "b", S: &sg.Schema{Ref: "#/$defs/kind", Target: free}}}}
+		doc, _ := jsonx.Parse([]byte(`{"a":7,"b":300}`))
+		w := &sem.Case{Root: root, Sig: "witness:minsized-collision-equal-after-clearing", NoAuto: true, Witness: "minsized-collision-equal-after-clearing", Docs: []docgen.Doc{{V: doc, Class: "pinned", Label: "witness"}}}
+		w.Pair = &sem.Case{Root: root, Sig: w.Sig, Args: []string{"--min-sized-ints"}, Witness: w.Witness}
+		cases = append(cases, w)
+	}
 	cfg := &sem.Config{Prop: "C15", Tier: ctx.Tier, Seed: ctx.Seed, Cases: cases, Classes: docgen.Classes{"bound": true, "nullok": true, "enum": true, "delopt": true}, Valid: 4, PerSite: 8, MaxDocs: 130,
 		Env: ctx.Env, Values: true, IntLim: true, NoMulti: true, Own: classOwner("bound", "valid", "nullok", "enum", "delopt", "pinned")}
 	// census of chosen types (flag-on programs): direct integer properties of the root
 	census, censusBad := 0, 0
 	typesSeen := map[string]int{}
 	var cviol []Viol
+	asym, asymBad := 0, 0
+	asymKnown := map[string]int{}
 	cfg.AfterBatch = func(cases []*sem.Case) {
+		for _, c := range cases {
+			// the flag narrows types, nothing else: a schema whose code is generated and builds without the flag is
+			// generated and builds with it (else no document at all is accepted with the flag)
+			if off, on := sem.ProgramOf(c), sem.ProgramOf(c.Pair); off != nil && on != nil && off.Usable() && !on.Usable() && !on.Proc.TimedOut && c.Witness == "" {
+				asym++
+				problem := ""
+				if on.Proc.Exit != 0 {
+					problem = "refused with the flag: " + trunc(firstFailed(on), 300)
+				} else if on.Report != nil {
+					problem = "emitted code does not build with the flag: " + trunc(on.Report.Summary(), 300)
+				}
+				if sig := genFindingFor(ctx, c.Root, c.Pair.Args, problem); sig != "" {
+					asymKnown[sig]++
+					continue
+				}
+				asymBad++
+				if len(cviol) < 5 {
+					b, _ := json.MarshalIndent(map[string]any{"property": "C15", "kind": "flag-on program missing", "problem": problem, "schema": json.RawMessage(jsonx.Marshal(c.Root.ToJSON())), "emitted": string(on.Src)}, "", " ")
+					path := filepath.Join(evid.ReplayDir(), fmt.Sprintf("C15-census-%d.json", len(cviol)))
+					_ = os.WriteFile(path, b, 0o644)
+					cviol = append(cviol, Viol{Replay: path, Summary: "generated and built without --min-sized-ints, but " + problem + "\n schema=" + trunc(string(jsonx.Marshal(c.Root.ToJSON())), 600)})
+				}
+			}
+		}
 		for _, c := range cases {
 			p := sem.ProgramOf(c.Pair)
 			if p == nil || !p.Usable() {
@@ -199,6 +271,9 @@ func c15(ctx *Ctx) (*Outcome, error) {
 	}
 	o := FromSem(ctx, rep, "integer-heavy schemas whose bounds (boolean and numeric exclusive forms, one- and two-sided) are drawn from the 8/16/32/64-bit signed/unsigned limits and their neighbours; each is generated WITHOUT and WITH --min-sized-ints and both compiled programs run on the same documents (values on/next to every stated bound and every type limit, nulls, absents); each side's verdict is compared with the model (hence with each other) and accepted values must decode identically; plus a go/ast census of the chosen field type of every direct integer property: contains every admitted integer and no narrower sized type does",
 		6000, commonAssumptions)
+	o.Coverage["flag_on_program_missing_while_flag_off_builds"] = asym
+	o.Coverage["flag_on_program_missing_unexplained"] = asymBad
+	o.Coverage["flag_on_program_missing_explained_by_recorded_finding"] = asymKnown
 	o.Coverage["type_census_fields"] = census
 	o.Coverage["type_census_by_type"] = typesSeen
 	o.Coverage["type_census_violations"] = censusBad
